@@ -274,6 +274,43 @@ def directed_case(chk: Check, mon: Monitors, seed: int, i: int) -> None:
     chk.case(("directed", len(attrs), len(static), bool(extra), inner[:6]), {"page": tmpl, "items": n} if i < 2 else None)
 
 
+def directed_long_repeat(chk: Check, mon: Monitors, seed: int, i: int) -> None:
+    """Directed family: loops far longer than the grammar's (27 .. 3000 items) reading every repeat variable,
+    and expressions in tal:define / tal:attributes / tal:content whose string: literals hold runs of blanks."""
+    simpleTALES.PATHNOTFOUNDEXCEPTION.__traceback__ = None
+    rng = chk.subrng("long", i)
+    n = rng.choice([5, 26, 27, 28, 52, 53, 60, 100, 399, 400, 702, 703, 1000, 1999, 3000])
+    items = [{"name": "n%d" % k, "a": "A%d" % k, "b": "B"} for k in range(n)]
+    gap = rng.choice(["  ", "   -   ", " ", "  \t ", "    "])
+    parts = ['<i tal:content="repeat/x/index">i</i>', '<i tal:content="repeat/x/number">n</i>', '<i tal:content="repeat/x/roman">r</i>',
+             '<i tal:content="repeat/x/Roman">R</i>', '<i tal:content="repeat/x/length">l</i>',
+             '<b tal:condition="repeat/x/even">even</b>', '<b tal:condition="repeat/x/odd">odd</b>',
+             '<b tal:condition="repeat/x/start">first</b>', '<b tal:condition="repeat/x/end">last</b>',
+             '<u tal:define="v string:${x/a}%s${x/b}" tal:content="v">v</u>' % gap,
+             '<u tal:attributes="title string:${x/a}%s${x/b}; lang string:a%sb" title="t">t</u>' % (gap, gap),
+             '<u tal:content="string:${x/a}%s${x/b}">c</u>' % gap,
+             '<u tal:define="global g string:g%s${x/name}; w string:${x/name}%send" tal:content="w">w</u>' % (gap, gap)]
+    if n <= 26:
+        parts += ['<i tal:content="repeat/x/letter">a</i>', '<i tal:content="repeat/x/Letter">A</i>']
+    chosen = rng.sample(parts, rng.randint(3, len(parts)))
+    tmpl = '<ol><li tal:repeat="x items">%s</li></ol><p tal:content="g | nothing">g</p>' % "".join(chosen)
+    schema = _FixedSchema({"items": items})
+    mon.current = {"case": i, "case_seed": seed, "family": "long-repeat"}
+    res = compare(None, tmpl, schema, "page")
+    if isinstance(res, str):
+        chk.count("reference_abstained")
+        chk.case(None)
+        return
+    chk.count("directed_long_repeat_cases")
+    if res is not None:
+        if "exception" not in res:
+            res = {k: (v[:300] if isinstance(v, str) else v) for k, v in res.items()}
+        key = "C17/exception:" + res["exception"] if "exception" in res else "C17/expansion-differs-from-reference"
+        chk.witness(key, {"family": "long-repeat+blank-runs", "case": i, "case_seed": seed, "page": tmpl, "items": n, "result": res})
+        return
+    chk.case(("long-repeat", n, len(chosen), gap), {"page": tmpl[:300], "items": n} if i < 2 else None)
+
+
 SUBSETS: set = set()
 RULE = ("distinct (set of TAL/METAL commands used in the template, maximum nesting depth, result class "
         "{no-elements, 1-9, 10+ output elements, differs}) triples among cases the reference did not abstain on")
@@ -295,6 +332,8 @@ def main() -> int:
             run_case(chk, mon, seed, i)
         for i in range(CASES[chk.tier] // 10):
             directed_case(chk, mon, seed, i)
+        for i in range(max(40, CASES[chk.tier] // 40)):
+            directed_long_repeat(chk, mon, seed, i)
         chk.seed = seed
     c = chk.counters
     if not chk.replay_case:
